@@ -42,8 +42,12 @@ package storage
 //@   requires unreferenced: s.refCount <= 0
 //@   modifies s.index
 //@   ensures  s.index == nil
+// segDirRemoved (ghost) records that a directory was removed through the file system
+//@ ghost var segDirRemoved bool
 //@ func fs.FileSystem.MustRMAll
 //@   assumed file system (removes the segment directory)
+//@   modifies segDirRemoved
+//@   ensures  segDirRemoved
 //
 //@ func segment.GetTimeRange
 //@   mode int
@@ -54,6 +58,7 @@ package storage
 //@   requires s != nil
 //@   opt wrap int32
 //@   modifies s.refCount
+//@   modifies segDirRemoved
 //@   modifies s.index
 //@   loop 0 unroll 1
 //@   ensures  held:    result == nil && old(s.refCount) > 0 && old(s.refCount) < 2147483647 ==> s.refCount == old(s.refCount) + 1 && s.index == old(s.index)
@@ -65,6 +70,7 @@ package storage
 //@   requires s != nil
 //@   opt wrap int32
 //@   modifies s.refCount
+//@   modifies segDirRemoved
 //@   modifies s.index
 //@   ensures  held:    result == nil && old(s.refCount) > 0 && old(s.refCount) < 2147483647 ==> s.refCount == old(s.refCount) + 1 && s.index == old(s.index)
 //@   ensures  reopen:  result == nil && old(s.refCount) <= 0 ==> s.refCount == 1 && s.index != nil && s.mustBeDeleted == 0
@@ -74,6 +80,7 @@ package storage
 //@   mode int
 //@   requires s != nil
 //@   modifies s.refCount
+//@   modifies segDirRemoved
 //@   modifies s.index
 //@   loop 0 unroll 1
 //@   ensures  released:  old(s.refCount) > 0 ==> s.refCount == old(s.refCount) - 1
@@ -84,19 +91,22 @@ package storage
 //@   mode int
 //@   requires s != nil
 //@   modifies s.index
+//@   modifies segDirRemoved
 //@   at-call MustRMAll requires only-when-unreferenced-and-closed: s.refCount <= 0 && s.index == nil
 //@   ensures  in-use:  s.refCount > 0 ==> s.index == old(s.index)
-//@   ensures  deleted: s.refCount <= 0 ==> s.index == nil
+//@   ensures  deleted: s.refCount <= 0 ==> s.index == nil && segDirRemoved
 //@ func segment.closeIfIdle
 //@   mode int
 //@   requires s != nil
 //@   modifies s.index
+//@   modifies segDirRemoved
 //@   ensures  closed:    result ==> old(s.index) != nil && s.refCount == 0 && s.mustBeDeleted == 0 && s.index == nil
 //@   ensures  untouched: !result ==> s.index == old(s.index)
 //@ func segment.delete
 //@   mode int
 //@   requires s != nil
 //@   modifies s.mustBeDeleted
+//@   modifies segDirRemoved
 //@   modifies s.index
 //@   ensures  flagged: s.mustBeDeleted == 1
 //@   ensures  now:     old(s.refCount) == 0 ==> s.index == nil
@@ -120,6 +130,7 @@ package storage
 //@   opt wrap int32
 //@   requires sc != nil && lstOK(sc)
 //@   modifies allof(segment.refCount)
+//@   modifies segDirRemoved
 //@   modifies allof(segment.index)
 //@   inline GetTimeRange
 //@   loop 2 unroll 1
@@ -138,6 +149,7 @@ package storage
 //@   opt bounded controller lists of at most 2 segments (loops unrolled completely)
 //@   requires sc != nil && lstOK(sc) && len(sc.lst) <= 2
 //@   modifies allof(segment.refCount)
+//@   modifies segDirRemoved
 //@   modifies allof(segment.index)
 //@   inline GetTimeRange
 //@   loop 0 unroll 2
@@ -155,6 +167,7 @@ package storage
 //@   opt wrap int32
 //@   requires sc != nil && lstOK(sc)
 //@   modifies allof(segment.refCount)
+//@   modifies segDirRemoved
 //@   modifies allof(segment.index)
 //@   loop 2 unroll 1
 //@   ensures  none: result1 != nil ==> len(result0) == 0
@@ -172,6 +185,7 @@ package storage
 //@   opt bounded controller lists of at most 2 segments (loops unrolled completely)
 //@   requires sc != nil && lstOK(sc) && len(sc.lst) <= 2
 //@   modifies allof(segment.refCount)
+//@   modifies segDirRemoved
 //@   modifies allof(segment.index)
 //@   loop 0 unroll 2
 //@   loop 1 unroll 2
@@ -198,6 +212,7 @@ package storage
 //@   timeout 60
 //@   requires sc != nil && lstOK(sc)
 //@   modifies sc.lst
+//@   modifies segDirRemoved
 //@   modifies allof(segment.mustBeDeleted)
 //@   modifies allof(segment.index)
 //@   ensures  keep-one:  old(len(sc.lst)) <= 1 ==> !result0 && len(sc.lst) == old(len(sc.lst))
@@ -210,6 +225,7 @@ package storage
 //@   timeout 60
 //@   requires sc != nil && lstOK(sc)
 //@   modifies sc.lst
+//@   modifies segDirRemoved
 //@   modifies sc.lst[0:cap(sc.lst)]
 //@   modifies allof(segment.refCount)
 //@   modifies allof(segment.index)
@@ -232,6 +248,7 @@ package storage
 //@   timeout 60
 //@   requires d != nil && d.segmentController != nil && lstOK(d.segmentController)
 //@   modifies allof(segment.refCount)
+//@   modifies segDirRemoved
 //@   modifies allof(segment.index)
 //@   modifies allof(segment.mustBeDeleted)
 //@   modifies retentionDeadline
@@ -306,9 +323,10 @@ package storage
 //@   loop 0 invariant nohit: forall k :: last - range_i < k && k <= last ==> !(sc.lst[k].Start <= start && start < sc.lst[k].End)
 //@   loop 1 invariant bump: alignedStart <= start && start <= old(start) && stdEnd == gridNext(alignedStart) && old(start) < stdEnd
 //@   loop 1 invariant nohit: forall k :: 0 <= k && k < len(sc.lst) ==> !(sc.lst[k].Start <= old(start) && old(start) < sc.lst[k].End)
-//@   loop 1 invariant nxt: next == nil || (next.Start > old(start) && pidx(next) == 0)
+//@   loop 1 invariant nxt: next == nil || (next.Start > old(start) && pidx(next) == 0 && next.Start < next.End && next.Start > start && next.End > old(start))
 //@   loop 1 invariant behind: forall k :: 0 <= k && k < range_i ==> sc.lst[k].End <= start || (next != nil && sc.lst[k].Start >= next.Start)
-//@   loop 1 invariant nearest: next != nil ==> next.Start > start && next.End > old(start) && (exists m :: 0 <= m && m < range_i && sc.lst[m] == next)
+//@   loop 1 invariant sorted: forall a, b :: 0 <= a && a < b && b < len(sc.lst) ==> sc.lst[a].End <= sc.lst[b].Start
+//@   loop 1 invariant ahead: next != nil ==> (forall j :: range_i <= j && j < len(sc.lst) ==> next.End <= sc.lst[j].Start)
 //
 //@ section C19
 // ---- file snapshots (backup source): a closed segment is copied as it lies and is never reopened; an open one is pinned ----
@@ -327,6 +345,7 @@ package storage
 //@   opt wrap int32
 //@   requires s != nil && 0 <= s.refCount && s.refCount < 2147483647
 //@   modifies s.refCount
+//@   modifies segDirRemoved
 //@   modifies s.index
 //@   at-call segment.snapshotClosed requires only-while-closed: s.index == nil && s.refCount == old(s.refCount) && s.mustBeDeleted == 0
 //@   at-call segment.snapshotOpen requires only-while-pinned: s.index != nil && arg1 == s.index && s.refCount == old(s.refCount) + 1 && s.mustBeDeleted == 0
@@ -346,6 +365,7 @@ package storage
 //@   requires d != nil && d.segmentController != nil
 //@   requires forall s *segment :: 0 <= s.refCount && s.refCount < 2147483647
 //@   modifies allof(segment.refCount)
+//@   modifies segDirRemoved
 //@   modifies allof(segment.index)
 //@   ensures  none-reopened: forall s *segment :: old(s.index) == nil ==> s.index == nil
 //@   ensures  none-left-pinned: forall s *segment :: s.refCount == old(s.refCount)
